@@ -297,7 +297,7 @@ func dataMessageMACed(msg []byte) (raw []byte, authEnd int, ok bool) {
 	if !rd() { // next D-H public key
 		return nil, 0, false
 	}
-	off += 8 // counter
+	off += 8   // counter
 	if !rd() { // encrypted message
 		return nil, 0, false
 	}
@@ -867,6 +867,71 @@ func TestC47(t *testing.T) {
 		}
 	}
 	_, f38 := ev.IsKnownFinding("F38")
+
+	// bounded-exhaustive: one bit flipped in every byte of the header fields and of the MAC of a data message
+	if ev.Mine(0) {
+		keys := otrKeyPool()
+		a := &otr.Conversation{PrivateKey: keys[0], Rand: drbg(ev.Seed())}
+		b := &otr.Conversation{PrivateKey: keys[1], Rand: drbg(^ev.Seed())}
+		msgs := [][]byte{[]byte(otr.QueryMessage)}
+		for toA := true; len(msgs) > 0; toA = !toA {
+			var next [][]byte
+			for _, m := range msgs {
+				var out [][]byte
+				if toA {
+					_, _, _, out, _ = a.Receive(m)
+				} else {
+					_, _, _, out, _ = b.Receive(m)
+				}
+				next = append(next, out...)
+			}
+			msgs = next
+		}
+		if !a.IsEncrypted() || !b.IsEncrypted() {
+			c.Violation("scripted key exchange did not reach the encrypted state", "")
+			t.Fatalf("VF-VIOLATION: property=C47 scripted key exchange did not reach the encrypted state")
+		}
+		total := 0
+		probe := func(pos func(authEnd int) int, label string) {
+			txt := []byte("exhaustive " + label)
+			out, err := b.Send(txt)
+			raw, authEnd, ok := dataMessageMACed(out[0])
+			if err != nil || len(out) != 1 || !ok {
+				c.Inconclusive("cannot take a data message apart")
+				t.Fatal("cannot take a data message apart")
+			}
+			m := append([]byte{}, raw...)
+			m[pos(authEnd)] ^= 0x10
+			got, enc, _, _, rerr := a.Receive(refpgp.OTRMsg(m))
+			if len(got) > 0 && rerr == nil {
+				what := fmt.Sprintf("data message with a flipped bit in %s delivered (encrypted=%v) as %q", label, enc, got)
+				c.Violation(what, "")
+				t.Fatalf("VF-VIOLATION: property=C47 %s", what)
+			}
+			// the untouched message is still good afterwards
+			got, enc, _, _, rerr = a.Receive(out[0])
+			if rerr != nil || !enc || !bytes.Equal(got, txt) {
+				what := fmt.Sprintf("after a tampered copy (%s) the original data message is refused: %v", label, rerr)
+				c.Violation(what, "")
+				t.Fatalf("VF-VIOLATION: property=C47 %s", what)
+			}
+			c.Case(true, "exh|"+label, "tamper:exhaustive-field-bytes")
+			total++
+		}
+		for i := 0; i < 20; i++ {
+			i := i
+			probe(func(authEnd int) int { return authEnd - 20 + i }, fmt.Sprintf("MAC byte %d", i))
+		}
+		for i := 3; i < 12; i++ {
+			i := i
+			probe(func(int) int { return i }, fmt.Sprintf("header byte %d", i))
+		}
+		for i := 0; i < 8; i++ {
+			i := i
+			probe(func(authEnd int) int { return authEnd - 20 - 1 - i*7 }, fmt.Sprintf("ciphertext byte -%d", 1+i*7))
+		}
+		c.Exhaustive("one flipped bit in each MAC byte, each header byte and sampled ciphertext bytes of a data message", total)
+	}
 
 	rapid.Check(t, func(rt *rapid.T) {
 		if rapid.IntRange(0, 9).Draw(rt, "which") == 0 {
